@@ -57,6 +57,11 @@ def np_array(kind, vals):
         return np.array(["NaT" if v is None else v for v in vals], dtype="datetime64[ns]")
     if kind == "td":
         return np.array(["NaT" if v is None else v for v in vals], dtype="timedelta64[s]")
+    if kind == "ol":
+        a = np.empty(len(vals), dtype=object)           # object cells that are lists (what regex.split / findall return)
+        for j, v in enumerate(vals):
+            a[j] = None if v is None else list(v)
+        return a
     if kind in ("o", "oi", "ob", "obn"):
         a = np.empty(len(vals), dtype=object)
         for j, v in enumerate(vals):
@@ -183,6 +188,8 @@ def pcell(kind, v):
         return int(v)
     if kind in ("b", "ob", "obn"):
         return bool(v)
+    if kind == "ol":
+        return list(v)
     if kind in DT_UNITS:
         return ("T", iso_to_us(v))
     if kind == "tn":
@@ -296,7 +303,7 @@ def kind_dtype_tag(kind):
     return {"f": "float64", "f32": "float32", "i": "int64", "i32": "int32", "i8": "int8", "u8": "uint8", "b": "bool", "s": "string",
             "u": "U", "d": "datetime64[D]", "t": "datetime64[us]", "tm": "datetime64[ms]",
             "ts": "datetime64[s]", "tn": "datetime64[ns]", "td": "timedelta64[s]", "o": "object", "oi": "object",
-            "ob": "object", "obn": "object", "y": "S"}[kind]
+            "ob": "object", "obn": "object", "ol": "object", "y": "S"}[kind]
 
 
 # -- snapshots ------------------------------------------------------------------------------
